@@ -774,7 +774,10 @@ const c19dRule = "stale: directed schedules of 4 and 7 real (not started, hand-d
 	"rest changes view and decides in view 1 with the old Commits in the table, every choice of the stale validators, Commits arriving before or " +
 	"after the view change, plain rounds in between; one case per block hand-over, non-trivial when the table held a Commit of another view; " +
 	"proposal: a real backup and a simulated primary sending a crafted PrepareRequest (11 defect classes x state root on/off x backup index), " +
-	"non-trivial when a defect was injected"
+	"non-trivial when a defect was injected; recovery: f validators dead, proposals below the target view (1 or 2) lost, in the target view any " +
+	"combination of PrepareRequest/PrepareResponse/Commit/ChangeView lost on the way to a victim whose commit is needed, then synchrony; every " +
+	"victim x every combination x 4 and 7 validators (quick: all for 4 validators at view 1, a seeded third of the rest), non-trivial when " +
+	"RecoveryMessages were exchanged and payloads rebuilt from them"
 
 func runC19d(args []string) error {
 	cf, fs := parseCommon("c19d", args)
@@ -793,6 +796,8 @@ func runC19d(args []string) error {
 			var err error
 			if x.Kind == "proposal" {
 				err = c19dRunProposal(co, x.Input)
+			} else if x.Kind == "recovery" {
+				err = c19dRunRecovery(co, x.Input)
 			} else {
 				in := x.Input
 				// a shrunk "stale" record wraps the scenario
@@ -862,5 +867,414 @@ func runC19d(args []string) error {
 			}
 		}
 	}
+	// recovery: every victim, every combination of lost kinds, views 1 and 2, 4 and 7 validators
+	kinds := []string{"req", "resp", "commit", "cv"}
+	for _, nv := range [][2]int{{4, 1}, {4, 2}, {7, 1}, {7, 2}} {
+		liveN := nv[0] - (nv[0]-1)/3
+		for mask := 1; mask < 16; mask++ {
+			var l []string
+			for b, k := range kinds {
+				if mask&(1<<b) != 0 {
+					l = append(l, k)
+				}
+			}
+			for v := 0; v < liveN; v++ {
+				// quick tier: all victims for 4 validators at view 1, a seeded third of the rest
+				if !(nv[0] == 4 && nv[1] == 1) && cf.n < 20 && r.intn(3) != 0 {
+					continue
+				}
+				in := c19dRecInput{N: nv[0], StateRoot: r.bool(), View: nv[1], Victim: v, Lost: l, Txs: r.intn(3), After: 1 + r.intn(2)}
+				raw, _ := json.Marshal(in)
+				if err := c19dRunRecovery(co, raw); err != nil {
+					return err
+				}
+			}
+		}
+	}
 	return co.finish()
+}
+
+// ---------------- kind "recovery" ----------------
+//
+// Loss, then synchrony, through the repository's recovery glue (pkg/consensus/recovery_message.go) at views above 0:
+// f validators (the primary of view 0 among them) are dead for the height, the proposals of the views below the target view
+// are lost, so the M live validators change view; in the target view the payload kinds listed in Lost never reach the victim
+// V, whose commit is needed (exactly M validators are alive). Then nothing is lost any more: timers fire round by round and
+// everything, RecoveryRequests and RecoveryMessages included, is delivered. Every live service must hand the same block to
+// its ledger within a bounded number of rounds, and every RecoveryMessage is checked structurally: the payloads the receiver
+// rebuilds from it are, field by field, payloads that were really sent (type, validator, height, VIEW, body, witness).
+
+type c19dRecInput struct {
+	N         int      `json:"n"`
+	StateRoot bool     `json:"state_root"`
+	View      int      `json:"view"`   // target view, 1 or 2
+	Victim    int      `json:"victim"` // position of V among the live validators
+	Lost      []string `json:"lost"`   // of req, resp, commit, cv
+	Txs       int      `json:"txs"`
+	After     int      `json:"after"` // plain synchronous heights afterwards
+}
+
+type c19dRestored struct {
+	Typ     int  `json:"typ"`
+	Idx     int  `json:"idx"`
+	View    int  `json:"view"`      // view carried by the rebuilt payload
+	Orig    int  `json:"orig_view"` // view of the payload it is a copy of, -1 if there is none
+	Equal   bool `json:"equal"`
+	SigOK   bool `json:"sig_ok"`
+	RecView int  `json:"rec_view"` // view of the RecoveryMessage
+}
+
+type c19dRecImpl struct {
+	Victim     int            `json:"victim"`
+	Live       []int          `json:"live"`
+	VictimView int            `json:"victim_view_before"` // view of V when the loss ends
+	Committed  int            `json:"committed_before"`   // live validators that had committed when the loss ends
+	Rounds     int            `json:"rounds"`             // synchronous rounds until every live service handed the block over
+	Decided    bool           `json:"decided"`
+	SameBlock  bool           `json:"same_block"`
+	Accepted   bool           `json:"accepted"` // own ledgers and the independent ledger
+	RecMsgs    int            `json:"recovery_messages"`
+	Restored   []c19dRestored `json:"restored"`
+	AfterOK    bool           `json:"after_ok"`
+	FinalView  int            `json:"final_view"`
+}
+
+const c19dMaxRounds = 6
+
+func (n *c19dNet) originals(typ int, h uint32, vi int) []c19dSent {
+	var out []c19dSent
+	for _, nd := range n.nodes {
+		if nd.i != vi {
+			continue
+		}
+		for _, s := range nd.sent {
+			if s.typ == typ && s.h == h {
+				out = append(out, s)
+			}
+		}
+	}
+	return out
+}
+
+func (n *c19dNet) sigOK(e *npayload.Extensible, vi int) bool {
+	inv := e.Witness.InvocationScript
+	if len(inv) != 66 || inv[0] != byte(opcode.PUSHDATA1) || inv[1] != 64 || vi < 0 || vi >= len(n.pubs) {
+		return false
+	}
+	return n.pubs[vi].VerifyHashable(inv[2:], uint32(n.obs.GetConfig().Magic), e) &&
+		bytes.Equal(e.Witness.VerificationScript, n.pubs[vi].GetVerificationScript())
+}
+
+// structural check of what [to] rebuilds from a RecoveryMessage
+func (n *c19dNet) checkRestore(to *c19dNode, raw []byte, impl *c19dRecImpl) {
+	restored, recView, ok := to.drv.Restore(c19dExt(raw))
+	if !ok {
+		n.violate("a RecoveryMessage broadcast by a validator is not decodable / acceptable at validator %d", to.i)
+		return
+	}
+	impl.RecMsgs++
+	for _, e := range restored {
+		typ, h, vi, view, ok := c19Decode(e.Data)
+		if !ok {
+			n.violate("payload rebuilt from a RecoveryMessage is not decodable")
+			continue
+		}
+		if typ == 1 && vi == (int(h)-view%n.n+n.n)%n.n {
+			continue // the primary's entry of the preparation list, rebuilt as a response: ignored by dBFT
+		}
+		it := c19dRestored{Typ: typ, Idx: vi, View: view, Orig: -1, RecView: int(recView)}
+		for _, o := range n.originals(typ, h, vi) {
+			oe := c19dExt(o.raw)
+			same := false
+			switch typ {
+			case 3: // the compact form drops the reason: compare the timestamp
+				same = len(oe.Data) >= 15 && len(e.Data) >= 15 && bytes.Equal(oe.Data[7:15], e.Data[7:15])
+			default:
+				same = bytes.Equal(oe.Data[7:], e.Data[7:])
+			}
+			if !same {
+				continue
+			}
+			it.Orig = o.view
+			if typ == 3 {
+				it.Equal = bytes.Equal(oe.Data[:15], e.Data[:15]) && oe.Sender == e.Sender && oe.ValidBlockEnd == e.ValidBlockEnd &&
+					bytes.Equal(oe.Witness.InvocationScript, e.Witness.InvocationScript) && bytes.Equal(oe.Witness.VerificationScript, e.Witness.VerificationScript)
+				it.SigOK = it.Equal && (len(oe.Data) < 16 || oe.Data[15] != 0 || n.sigOK(e, vi))
+			} else {
+				it.Equal = bytes.Equal(oe.Data, e.Data) && oe.Sender == e.Sender && oe.ValidBlockEnd == e.ValidBlockEnd && oe.Category == e.Category &&
+					oe.ValidBlockStart == e.ValidBlockStart &&
+					bytes.Equal(oe.Witness.InvocationScript, e.Witness.InvocationScript) && bytes.Equal(oe.Witness.VerificationScript, e.Witness.VerificationScript)
+				it.SigOK = n.sigOK(e, vi)
+			}
+			if it.Equal {
+				break
+			}
+		}
+		if !it.Equal || !it.SigOK {
+			n.violate("RecoveryMessage round trip: the %s of validator %d rebuilt by the receiver (view %d, from a recovery message of view %d) is not the payload that was sent (its view: %d; witness verifies: %v)",
+				[]string{"PrepareRequest", "PrepareResponse", "Commit", "ChangeView"}[typ], vi, view, recView, it.Orig, it.SigOK)
+		}
+		impl.Restored = append(impl.Restored, it)
+	}
+}
+
+func c19dRunRecovery(co *caseOut, raw json.RawMessage) error {
+	var in c19dRecInput
+	if err := json.Unmarshal(raw, &in); err != nil {
+		return err
+	}
+	if in.N != 7 {
+		in.N = 4
+	}
+	if in.View != 2 {
+		in.View = 1
+	}
+	N, W := in.N, in.View
+	f := (N - 1) / 3
+	lost := map[int]bool{}
+	for _, l := range in.Lost {
+		switch l {
+		case "req":
+			lost[0] = true
+		case "resp":
+			lost[1] = true
+		case "commit":
+			lost[2] = true
+		case "cv":
+			lost[3] = true
+		}
+	}
+	var impl c19dRecImpl
+	var net *c19dNet
+	if p := catch(func() {
+		var all []int
+		for i := 0; i < N; i++ {
+			all = append(all, i)
+		}
+		net = c19dBuild(N, in.StateRoot, all, nil)
+		defer net.close()
+		h := uint32(1)
+		prim := func(v int) int { return ((int(h)-v)%N + N) % N }
+		pW := prim(W)
+		dead := map[int]bool{prim(0): true}
+		for v := 1; v < W && len(dead) < f; v++ {
+			dead[prim(v)] = true
+		}
+		for d := (pW + 3) % N; len(dead) < f; d = (d + 1) % N {
+			if d != pW {
+				dead[d] = true
+			}
+		}
+		var live []int
+		for i := 0; i < N; i++ {
+			if !dead[i] {
+				live = append(live, i)
+			}
+		}
+		V := live[((in.Victim%len(live))+len(live))%len(live)]
+		impl.Victim, impl.Live = V, live
+		for k := 0; k < in.Txs; k++ {
+			tx := net.tx(1_0000000, h+50)
+			for _, nd := range net.nodes {
+				if err := nd.bc.PoolTx(tx); err != nil {
+					panic(err)
+				}
+			}
+		}
+		for _, nd := range net.nodes {
+			nd.drv.Start()
+		}
+		cursor := map[int]int{}
+		for _, nd := range net.nodes {
+			cursor[nd.i] = len(nd.sent) // what was sent at start (the dead primary's proposal) goes nowhere
+		}
+		// deliver everything new among the live validators until nothing new is sent
+		pump := func(allow func(from, to int, s c19dSent) bool, check bool) {
+			for iter := 0; iter < 200; iter++ {
+				progress := false
+				for _, from := range live {
+					nd := net.node(from)
+					for cursor[from] < len(nd.sent) {
+						s := nd.sent[cursor[from]]
+						cursor[from]++
+						progress = true
+						for _, to := range live {
+							if to == from || !allow(from, to, s) {
+								continue
+							}
+							if s.typ == 5 && check {
+								net.checkRestore(net.node(to), s.raw, &impl)
+							}
+							net.node(to).drv.Deliver(c19dExt(s.raw))
+						}
+					}
+				}
+				if !progress {
+					return
+				}
+			}
+			panic("message pump does not come to rest")
+		}
+		view := func(i int) int { return int(net.node(i).drv.State().View) }
+		// the views below the target: proposals lost, everybody alive asks for the next view
+		for v := 0; v < W; v++ {
+			if p := prim(v); !dead[p] && view(p) == v {
+				net.node(p).drv.Timeout() // its PrepareRequest is lost
+				cursor[p] = len(net.node(p).sent)
+			}
+			lastStep := v == W-1
+			for round := 0; round < 6; round++ {
+				done := true
+				for _, i := range live {
+					if view(i) <= v && !(lastStep && lost[3] && i == V && net.node(i).find(3, h, v) != nil) {
+						done = false
+					}
+				}
+				if done {
+					break
+				}
+				for _, i := range live {
+					if view(i) > v || net.node(i).find(3, h, v) != nil {
+						continue
+					}
+					net.node(i).drv.Timeout()
+					pump(func(from, to int, s c19dSent) bool {
+						if s.typ != 3 && s.typ != 4 {
+							return false // only requests for a view change / for recovery get through
+						}
+						return !(lastStep && lost[3] && to == V && s.typ == 3)
+					}, false)
+				}
+			}
+		}
+		for _, i := range live {
+			want := W
+			if lost[3] && i == V {
+				want = W - 1
+			}
+			if view(i) != want {
+				panic(fmt.Sprintf("set-up: validator %d is in view %d, expected %d", i, view(i), want))
+			}
+		}
+		// the target view, with the listed kinds lost on the way to V; no recovery traffic yet
+		if view(pW) == W {
+			net.node(pW).drv.Timeout()
+		}
+		pump(func(from, to int, s c19dSent) bool {
+			if s.typ >= 3 {
+				return false
+			}
+			return !(to == V && lost[s.typ])
+		}, false)
+		impl.VictimView = view(V)
+		for _, i := range live {
+			if net.node(i).drv.State().CommitSent {
+				impl.Committed++
+			}
+		}
+		// synchrony
+		decided := func() bool {
+			for _, i := range live {
+				if len(net.node(i).put) == 0 {
+					return false
+				}
+			}
+			return true
+		}
+		everything := func(from, to int, s c19dSent) bool { return true }
+		for impl.Rounds = 0; impl.Rounds < c19dMaxRounds && !decided(); {
+			impl.Rounds++
+			net.node(V).drv.Timeout()
+			pump(everything, true)
+			if decided() {
+				break
+			}
+			for _, i := range live {
+				if i != V && len(net.node(i).put) == 0 {
+					net.node(i).drv.Timeout()
+				}
+			}
+			pump(everything, true)
+		}
+		impl.Decided = decided()
+		impl.FinalView = view(V)
+		if !impl.Decided {
+			var st []string
+			for _, i := range live {
+				s := net.node(i).drv.State()
+				st = append(st, fmt.Sprintf("%d:view%d,commit=%v,block=%v", i, s.View, s.CommitSent, s.BlockSent))
+			}
+			net.violate("after the loss ends, %d synchronous rounds (timers fire, everything is delivered, recovery included) do not make every live validator produce the block at view >= %d: %v",
+				c19dMaxRounds, W, st)
+			return
+		}
+		impl.SameBlock, impl.Accepted = true, true
+		var blk *block.Block
+		for _, i := range live {
+			nd := net.node(i)
+			b := nd.put[0]
+			if blk == nil {
+				blk = b
+			} else if b.Hash() != blk.Hash() {
+				impl.SameBlock = false
+				net.violate("after recovery two services hand different blocks to their ledgers")
+			}
+			if nd.puterr[0] != nil {
+				impl.Accepted = false
+				net.violate("own ledger rejects the block the consensus service committed after recovery (validator %d): %v", i, nd.puterr[0])
+			}
+			if net.obs.BlockHeight() < h {
+				if err := net.obs.AddBlock(b); err != nil {
+					impl.Accepted = false
+					net.violate("an independent ledger rejects the block committed after recovery: %v", err)
+				}
+			} else if !c19dWitnessOK(net, b) || net.obs.GetHeaderHash(h) != b.Hash() {
+				impl.Accepted = false
+				net.violate("an independent ledger would reject the block validator %d committed after recovery", i)
+			}
+		}
+		if !impl.SameBlock || !impl.Accepted {
+			return
+		}
+		for _, nd := range net.nodes {
+			if nd.bc.BlockHeight() < h {
+				if err := nd.bc.AddBlock(blk); err != nil {
+					net.violate("ledger of validator %d rejects the block committed after recovery: %v", nd.i, err)
+					return
+				}
+			}
+			nd.drv.ChainBlock(blk)
+		}
+		// and the chain keeps advancing with everybody back
+		impl.AfterOK = true
+		var acc []c19dAccept
+		for k := 0; k < in.After; k++ {
+			if !net.staleHeight(c19dHeight{Txs: k % 2}, &acc) {
+				impl.AfterOK = false
+				break
+			}
+		}
+	}); p != "" {
+		return fmt.Errorf("harness failure in recovery case %s: %s", string(raw), p)
+	}
+	for _, v := range net.viol {
+		co.violation("recovery", v, in, impl)
+	}
+	var items []string
+	for _, it := range impl.Restored {
+		items = append(items, fmt.Sprintf("(%d,%d,%d,%s,%s,%s)", it.Typ, it.View, it.RecView, coqZi(int64(it.Orig))+"%Z", coqBool(it.Equal), coqBool(it.SigOK)))
+	}
+	small := impl
+	small.Restored = nil
+	tag := fmt.Sprintf("n%d/view%d/lost", N, W)
+	for _, l := range []string{"req", "resp", "commit", "cv"} {
+		for _, x := range in.Lost {
+			if x == l {
+				tag += "-" + l
+			}
+		}
+	}
+	co.add("recovery", tag, impl.RecMsgs > 0 && len(impl.Restored) > 0, in, map[string]any{"summary": small, "restored": len(impl.Restored)},
+		fmt.Sprintf("CRecovery %d %d %s %d %s %s %s %s", N, W, coqList(items), impl.Rounds, coqBool(impl.Decided), coqBool(impl.SameBlock), coqBool(impl.Accepted), coqBool(impl.AfterOK)))
+	return nil
 }
